@@ -271,4 +271,4 @@ def run(ctx):
     ctx.assumptions += ["serde derive semantics for the listed attributes (trusted)", "types outside the three model files serialise opaquely (kind `any`)"]
     ctx.run("C11-S1", "document types: both derives, no one-sided attributes, symmetric renames, skip only for None options", s1_symmetry, floor=90)
     ctx.run("C11-S2", "untagged variants distinguishable on re-reading; tagged variants unique", s2_untagged, floor=8)
-    ctx.run("C11-S4", "CSV import records: every column consumed", s4_csv_liveness, floor=15)
+    ctx.run("C11-S4", "CSV import records: every column consumed", s4_csv_liveness, floor=10)
